@@ -6,3 +6,6 @@ import WrglModel.Props.C12
 #print axioms Wrgl.C12_reachable_kept_unreachable_gone
 #print axioms Wrgl.C12_idempotent
 #print axioms Wrgl.C12_fact_rootsAllRefs
+#print axioms Wrgl.C12_dangling_refs_root_nothing
+#print axioms Wrgl.C12_live_table_kept_whole
+#print axioms Wrgl.C12_same_blocks_other_indices_both_kept
